@@ -13,7 +13,7 @@ RULE = ("Hypothesis-generated annotated networks: (a) clean motif networks; (b) 
         "extractor; plus the overall-degree variant on the bare graph. Oracle: Fraction extractor written from the "
         "definition (1e-12). Non-trivial = some topology with >= 2 excess classes and r >= 2; distinct = canonical JSON")
 ASSUMPTIONS = ["simple graphs (no self-loops / multi-edges), as the quantifier states"]
-BUDGET = {"quick": (16, 300), "thorough": (16, 5000)}
+BUDGET = {"quick": (16, 300), "thorough": (16, 15000)}
 
 
 @st.composite
